@@ -147,9 +147,14 @@ def gen_cases(rng: Rng, tier):
     M = 80 if tier == "thorough" else 10
     for k in range(M):
         yield _mfpca_case(rng, normalize=(k % 2 == 0), image=(k % 4 < 2))
+    # every run: the constructor option `weights` of MFPCA with values other than one, with and without normalisation,
+    # curves only and curves + image
+    for normalize in (False, True):
+        for image in (False, True):
+            yield _mfpca_case(rng, normalize=normalize, image=image, user_weights=[Fraction(2), Fraction(1, 2)])
 
 
-def _mfpca_case(rng, normalize, image=False):
+def _mfpca_case(rng, normalize, image=False, user_weights=None):
     """Two components, sample mean exactly affine (so that the P-spline smoothing of the mean that MFPCA
     applies reproduces it) and multivariate rank one: curve (mean_p + c_i d_p)_p with Σ c_i = 0,
     one component kept.  With `image` the second component is 2-D (rows × columns of different sizes).
@@ -187,6 +192,9 @@ def _mfpca_case(rng, normalize, image=False):
         comps.append(dict(t=Svec(t), X=Smat(X)))
     case = dict(kind="mfpca", normalize=normalize, comps=comps, sel=["int", 1], ck="affine-mean-rank1" + ("-image" if image else ""),
                 a=rs(rng.dyadic(-3, 3, 2)), b=rs(rng.dyadic(-3, 3, 2)), seed=rng.subseed())
+    if user_weights is not None:
+        case["user_weights"] = [rs(x) for x in user_weights]   # the documented constructor option `weights`
+        case["ck"] += "-userweights"
     if not image:
         # failure-injection history: the fitted estimator is refitted on data with ANOTHER number of components
         nR = rng.randint(3, 5)
@@ -486,7 +494,8 @@ def _run_mfpca(case):
         for rot in list(range(n_obs)) + [0]:
             order = [(i + rot) % n_obs for i in range(n_obs)]
             mfd = MultivariateFunctionalData([_comp_fd(c, order) for c in case["comps"]])
-            est = MFPCA(n_components=sel_to_py(case["sel"]), method="inner-product", normalize=case["normalize"])
+            kw = dict(weights=np.array(fl(Fv(case["user_weights"])))) if case.get("user_weights") else {}
+            est = MFPCA(n_components=sel_to_py(case["sel"]), method="inner-product", normalize=case["normalize"], **kw)
             _, err = _try(lambda: est.fit(mfd))
             if err or all(np.all(np.isfinite(c.values)) for c in est.eigenfunctions.data):
                 break
@@ -501,6 +510,9 @@ def _run_mfpca(case):
         out["s_none"] = None if s is None else np.asarray(s, dtype=float).tolist()
         sn, e = _try(lambda: est.transform(None, method="NumInt"))
         out["s_numint"] = None if sn is None else np.asarray(sn, dtype=float).tolist()
+        if all("t2" not in c for c in case["comps"]):
+            st, e = _try(lambda: est.transform(mfd, method="NumInt", method_smoothing=None))
+            out["s_train_numint"] = None if st is None else np.asarray(st, dtype=float).tolist()
         n, K = len(case["comps"][0]["X"]), len(out["vals"])
         if s is not None and np.all(np.isfinite(s)) and all(np.all(np.isfinite(p)) for p in out["phi"]):
             rec = est.inverse_transform(np.asarray(s))
@@ -559,7 +571,8 @@ def _requests_one(case, impl):
         if "inv1" in impl:
             for p, c in enumerate(case["comps"]):
                 if impl["weights"][p] >= 0:
-                    reqs.append((f"inv1:{p}", f"inv {_rv(impl['mean'][p])} {rs(F(impl['weights'][p]))} {M(impl['S1'])} {_rm(impl['phi'][p])}"))
+                    wp = rs(F(impl["weights"][p])) if case["normalize"] else "1"   # inverse_transform rescales only after a normalised fit
+                    reqs.append((f"inv1:{p}", f"inv {_rv(impl['mean'][p])} {wp} {M(impl['S1'])} {_rm(impl['phi'][p])}"))
         # MFPCA.transform(None, "NumInt") = Σ_p univariate NumInt scores of the stored (centred, rescaled) data
         # (FPCA.scoresMulti); 1-D components only (image components are smoothed first)
         if (impl.get("s_numint") is not None and all("t2" not in c for c in case["comps"]) and all(w_ > 0 for w_ in impl["weights"])
@@ -569,7 +582,8 @@ def _requests_one(case, impl):
             for p, c in enumerate(case["comps"]):
                 n = len(c["X"])
                 Xr = [c["X"][(i + rot) % n] for i in range(n)]
-                reqs.append((f"numint:{p}", f"tr1 {nz} spec {J(c['t'])} {_rv(impl['mean'][p])} {rs(F(impl['weights'][p]))} {M(Xr)} {_rm(impl['phi'][p])}"))
+                wp = rs(F(impl["weights"][p])) if case["normalize"] else "1"
+                reqs.append((f"numint:{p}", f"tr1 {nz} spec {J(c['t'])} {_rv(impl['mean'][p])} {wp} {M(Xr)} {_rm(impl['phi'][p])}"))
         return reqs
     reqs.append(("mean", f"mean {M(case['X'])}"))
     if case["normalize"]:
@@ -916,7 +930,8 @@ def _failure_history_mfpca(case):
     def data(comps):
         return MF([_comp_fd(c, list(range(len(c["X"])))) for c in comps])
 
-    mk = lambda: M.MFPCA(n_components=sel_to_py(case["sel"]), method="inner-product", normalize=case["normalize"])  # noqa: E731
+    kw = dict(weights=np.array(fl(Fv(case["user_weights"])))) if case.get("user_weights") else {}
+    mk = lambda: M.MFPCA(n_components=sel_to_py(case["sel"]), method="inner-product", normalize=case["normalize"], **dict(kw))  # noqa: E731
 
     def observe(est):
         o = {}
@@ -1003,6 +1018,13 @@ def _oracle_mfpca(case, impl):
             vs.append(dict(clause="fit_atomicity", entry="MFPCA.fit", causes=causes,
                            msg=f"MFPCA refit ({len(case['comps'])} -> {len(case['R_comps'])} components, normalize={case['normalize']}) with a failure injected at `{h['point']}` (raised: {h['raised']}): "
                                f"the estimator is a mixture — old: {sorted(olds)}, new: {sorted(news)}, neither: {sorted(odd)}"))
+    if not case["normalize"] and impl.get("s_numint") is not None and impl.get("s_train_numint") is not None:
+        s0, s1 = np.array(impl["s_numint"], dtype=float), np.array(impl["s_train_numint"], dtype=float)
+        if np.all(np.isfinite(s0)) and np.all(np.isfinite(s1)):
+            sc = max(np.abs(s0).max(), np.abs(s1).max(), 1e-300)
+            if s0.shape != s1.shape or np.abs(s0 - s1).max() > 1e-6 * sc:
+                vs.append(dict(clause="transform_training", entry="MFPCA.transform[NumInt]", causes=[],
+                               msg=f"MFPCA (normalize=False, constructor weights {case.get('user_weights')}): transform(training data) differs from transform(None) by {np.abs(s0 - s1).max():.3g} (scores up to {sc:.3g})"))
     a, b = float(F(case["a"])), float(F(case["b"]))
     for p, c in enumerate(case["comps"]):
         X = np.array(fl(Fm(c["X"])))
